@@ -223,4 +223,6 @@ class Gen:
             if n.startswith('diffie-hellman-group-exchange-sha') and n in self.db['kex'] and r.random() < 0.7:
                 dh[n] = r.choice([1024, 1536, 2048, 3072, 4096])
         p['hostkeys'], p['dh'] = hk, dh
+        if r.random() < 0.3:   # the note of the connection-rate check, as audit() passes it to output()
+            p['rate_notes'] = 'Potentially insufficient connection throttling detected, resulting in possible vulnerability to the DHEat DoS attack (CVE-2002-20001).  38 connections were created in %.3f seconds, or %.1f conns/sec; server must respond with a rate less than 20.0 conns/sec per IPv4/IPv6 source address to be considered safe.' % (r.random(), 38 / (0.1 + r.random()))
         return p
